@@ -215,7 +215,9 @@ def build_points(desc, phi_fn, bound, l_max, cy):
 def solved(resid, L, bound):
     """True when `resid` (ln p_model(L) - ln p) vanishes within the solver tolerance of L."""
     r0 = resid(np.float64(L))
-    if abs(r0) <= 1e-9:
+    # (1e-6 in ln p: the solver minimises the squared residual with xatol 1e-5 nm; near the potential minimum the
+    #  residual is flat and need not change sign although it is at rounding level)
+    if abs(r0) <= 1e-6:
         return True
     lo = max(L - DELTA, bound * (1 + 1e-9) + 1e-9)
     a, b = resid(np.float64(lo)), resid(np.float64(L + DELTA))
